@@ -76,7 +76,7 @@ Qed.
 End P.
 
 (* with the standard verification switched off the same host configuration lets the impostor in *)
-Lemma skip_verify_admits_impostor P p :
+Lemma skip_verify_lets_impostor_in P p :
   tp_host_cfg_at_start P = true -> tp_standard_verification P = false -> p <> HostBrokered ->
   client_accepts (client_cfg P (Some plugin_key) p) (Some impostor_server) = true.
 Proof.
